@@ -1,14 +1,37 @@
 package main
 
-// T1 facts for C11 (crash safety of the file store): the shape of the two places where the order of
-// file-system mutations decides whether a crash can be seen by a reader — how the index is replaced
-// (writeIndex) and how a mailbox directory is removed (removeDir) — plus the order of the calls on the
-// success path of AddMessage / removeMessage and the list of hook sites the T3 traces are made of.
+// T1 facts for C11 (crash safety of the file store).
+//
+// Nothing here looks at the spelling of a local variable, receiver, unexported helper, unexported field or label.
+// The extractor runs a small symbolic walk over pkg/storage/file/{fstore,mbox,fmessage}.go:
+//
+//   * the mailbox struct is "the struct that embeds sync.RWMutex"; its index-path / directory fields are the ones the
+//     constructors fill from filepath.Join(<dir>, "index.gob") and from <dir>; its message list is its only slice
+//     field and its loaded flag its only bool field;
+//   * a path expression is evaluated symbolically (locals are followed to their definitions by ast.Object identity,
+//     one-line helpers such as rawPath() are unfolded, parameters of inlined helpers are bound to their arguments):
+//       dir, dir/index.gob, dir/index.gob.tmp, dir/<Fid>.raw, parent(dir), parent(parent(dir));
+//   * a file-system mutation is recognised by its standard-library name (os.Create, os.OpenFile, os.Rename, os.Remove,
+//     os.RemoveAll, os.MkdirAll, io.Copy, (*bufio.Writer).Flush and (*os.File).Close of a handle obtained from
+//     os.Create / os.OpenFile); a verif hook by verifStep("<label>", …); a lock operation by Lock/RLock/Unlock/RUnlock;
+//   * calls of functions and methods declared in the package are INLINED (so helper boundaries do not matter);
+//   * the result is a PROGRAM: a sequence of atoms, alternatives `( a | b )` and loops `{ a }*`.  The branches of an
+//     `if` / `switch` are alternatives (sorted, so swapping branches under a negated condition changes nothing); when a
+//     branch ends in return / continue / break the statements after the `if` belong to the other branch (so a guard
+//     clause and the nested form print alike); a branch `if e != nil { …; return …e… }` is a FAILURE HANDLER and is
+//     left out (the programs describe the success path, like `addP` / `removeFoundP` of Ibx/Model/FsSteps.lean);
+//     the two sides of a test `len(<messages>) > 0` carry the tags [nonempty] / [empty]; alternatives and loops that
+//     contain no atom disappear.
+//
+// A shape the walk cannot interpret yields an atom starting with `?` (or an `os.Xxx` atom for an os function that is
+// not in the table), which no tie accepts.
 
 import (
 	"go/ast"
 	"go/token"
+	"sort"
 	"strconv"
+	"strings"
 )
 
 func init() { extractors = append(extractors, extractCrash) }
@@ -48,153 +71,1274 @@ func callWith(calls []*ast.CallExpr, fun string, args ...string) []*ast.CallExpr
 	return res
 }
 
-// successPathCalls: the calls (printed callee in `want`) inside n in source order, leaving out everything in
-// the BODY of an `if err != nil { … }` statement (its Init / Cond / Else still count).
-func successPathCalls(n ast.Node, want map[string]bool) []string {
-	res := []string{}
-	if n == nil || isNilNode(n) {
-		return res
-	}
-	var walk func(x ast.Node)
-	walk = func(x ast.Node) {
-		if x == nil {
-			return
-		}
-		ast.Inspect(x, func(y ast.Node) bool {
-			switch v := y.(type) {
-			case *ast.IfStmt:
-				if src(v.Cond) == "err != nil" {
-					if v.Init != nil {
-						walk(v.Init)
-					}
-					walk(v.Cond)
-					if v.Else != nil {
-						walk(v.Else)
-					}
-					return false
-				}
-			case *ast.FuncLit:
-				return false // deferred / nested closures are not the straight-line path
-			case *ast.CallExpr:
-				// arguments first would be evaluation order; source order of the callee token is what we record
-				if want[src(v.Fun)] {
-					res = append(res, src(v.Fun))
-				}
-			}
-			return true
-		})
-	}
-	walk(n)
-	return res
+// ---- the package view -------------------------------------------------------------------------------------------
+
+type crPkg struct {
+	files      []*ast.File
+	funcs      map[string][]*ast.FuncDecl // by name (functions and methods)
+	imports    map[string]bool            // names under which packages are imported
+	types      map[string]*ast.TypeSpec   // package-level types
+	consts     map[string]ast.Expr        // package-level const / var initialisers
+	boxType    string                     // the mailbox struct (embeds sync.RWMutex); "" when not found
+	sliceField string                     // its only slice field (the message list)
+	boolField  string                     // its only bool field (the index-loaded flag)
+	fieldRole  map[string]string          // field name -> "dir" | "dir/index.gob"
 }
 
-func extractCrash() {
-	g := gen("Crash")
-	fm := parse("pkg/storage/file/mbox.go")
-	fs := parse("pkg/storage/file/fstore.go")
+func crUnparen(e ast.Expr) ast.Expr {
+	for {
+		p, ok := e.(*ast.ParenExpr)
+		if !ok {
+			return e
+		}
+		e = p.X
+	}
+}
 
-	// ---- writeIndex: through index.gob.tmp + rename, or in place
-	indexWrite := "unknown"
-	if wi := fn(fm, "mbox", "writeIndex"); wi != nil {
-		calls := callsIn(wi.Body)
-		inPlace := callWith(calls, "os.Create", "mb.indexPath")
-		if len(inPlace) > 0 {
-			indexWrite = "inPlace"
-		} else {
-			// variables defined as mb.indexPath + ".tmp"
-			tmpVars := map[string]bool{}
-			ast.Inspect(wi.Body, func(x ast.Node) bool {
-				as, ok := x.(*ast.AssignStmt)
-				if !ok || as.Tok != token.DEFINE || len(as.Lhs) != 1 || len(as.Rhs) != 1 {
-					return true
-				}
-				id, ok := as.Lhs[0].(*ast.Ident)
-				if !ok {
-					return true
-				}
-				be, ok := as.Rhs[0].(*ast.BinaryExpr)
-				if !ok || be.Op != token.ADD || src(be.X) != "mb.indexPath" {
-					return true
-				}
-				if lit, ok := be.Y.(*ast.BasicLit); ok && lit.Kind == token.STRING {
-					if s, err := strconv.Unquote(lit.Value); err == nil && s == ".tmp" {
-						tmpVars[id.Name] = true
-					}
-				}
-				return true
-			})
-			creates := []*ast.CallExpr{}
-			for _, ce := range calls {
-				if src(ce.Fun) == "os.Create" {
-					creates = append(creates, ce)
-				}
+func crLoadPkg(files ...*ast.File) *crPkg {
+	p := &crPkg{funcs: map[string][]*ast.FuncDecl{}, imports: map[string]bool{}, types: map[string]*ast.TypeSpec{},
+		consts: map[string]ast.Expr{}, fieldRole: map[string]string{}}
+	for _, f := range files {
+		if f == nil {
+			continue
+		}
+		p.files = append(p.files, f)
+		for _, im := range f.Imports {
+			path, _ := strconv.Unquote(im.Path.Value)
+			name := path[strings.LastIndex(path, "/")+1:]
+			if im.Name != nil {
+				name = im.Name.Name
 			}
-			if len(creates) == 1 && len(creates[0].Args) == 1 {
-				if id, ok := creates[0].Args[0].(*ast.Ident); ok && tmpVars[id.Name] {
-					for _, rn := range callWith(calls, "os.Rename", id.Name, "mb.indexPath") {
-						if rn.Pos() > creates[0].Pos() {
-							indexWrite = "tmpRename"
+			p.imports[name] = true
+		}
+		for _, d := range f.Decls {
+			switch v := d.(type) {
+			case *ast.FuncDecl:
+				p.funcs[v.Name.Name] = append(p.funcs[v.Name.Name], v)
+			case *ast.GenDecl:
+				for _, s := range v.Specs {
+					switch sp := s.(type) {
+					case *ast.TypeSpec:
+						p.types[sp.Name.Name] = sp
+					case *ast.ValueSpec:
+						for i, n := range sp.Names {
+							if i < len(sp.Values) {
+								p.consts[n.Name] = sp.Values[i]
+							}
 						}
 					}
 				}
 			}
 		}
 	}
-	g.def("fileIndexWrite", "String", leanStr(indexWrite),
-		"(*mbox).writeIndex: \"tmpRename\" = the only os.Create is of a variable defined as mb.indexPath + \".tmp\" and os.Rename(<it>, mb.indexPath) follows; \"inPlace\" = os.Create(mb.indexPath)")
-
-	// ---- removeDir: index unlinked before RemoveAll, or RemoveAll first
-	removeDir := "unknown"
-	if rd := fn(fm, "mbox", "removeDir"); rd != nil {
-		calls := callsIn(rd.Body)
-		ra := callWith(calls, "os.RemoveAll", "mb.path")
-		ri := callWith(calls, "os.Remove", "mb.indexPath")
-		if len(ra) == 1 {
-			removeDir = "removeAllFirst"
-			for _, c := range ri {
-				if c.Pos() < ra[0].Pos() {
-					removeDir = "indexFirst"
-				}
-			}
-		}
-	}
-	g.def("fileRemoveDir", "String", leanStr(removeDir),
-		"(*mbox).removeDir: \"indexFirst\" = os.Remove(mb.indexPath) precedes os.RemoveAll(mb.path); \"removeAllFirst\" = no such call before it")
-
-	// ---- order of the mutations on the success path
-	addSet := map[string]bool{"mb.newMessage": true, "mb.createDir": true, "os.Create": true, "io.Copy": true, "w.Flush": true, "file.Close": true, "mb.writeIndex": true}
-	addOrder := []string{}
-	if am := fn(fs, "Store", "AddMessage"); am != nil {
-		addOrder = successPathCalls(am.Body, addSet)
-	}
-	g.def("fileAddOrder", "List String", strList(addOrder),
-		"(*Store).AddMessage: calls among newMessage/createDir/os.Create/io.Copy/w.Flush/file.Close/writeIndex in source order, outside the bodies of `if err != nil` blocks")
-
-	rmSet := map[string]bool{"mb.writeIndex": true, "os.Remove": true}
-	rmOrder := []string{}
-	if rm := fn(fm, "mbox", "removeMessage"); rm != nil {
-		rmOrder = successPathCalls(rm.Body, rmSet)
-	}
-	g.def("fileRemoveMsgOrder", "List String", strList(rmOrder),
-		"(*mbox).removeMessage: calls among mb.writeIndex / os.Remove in source order on the success path (index first, then the raw file)")
-
-	// ---- the hook sites (T3 traces are sequences of these)
-	hooks := []string{}
-	for _, f := range []*ast.File{fs, fm} {
-		if f == nil {
+	// the mailbox struct: the one that embeds (a pointer to) sync.RWMutex
+	boxes := []string{}
+	for name, ts := range p.types {
+		st, ok := ts.Type.(*ast.StructType)
+		if !ok {
 			continue
 		}
-		for _, ce := range callsIn(f) {
-			if src(ce.Fun) != "verifStep" || len(ce.Args) < 1 {
+		for _, fl := range st.Fields.List {
+			if len(fl.Names) != 0 {
 				continue
 			}
-			if lit, ok := ce.Args[0].(*ast.BasicLit); ok && lit.Kind == token.STRING {
-				if s, err := strconv.Unquote(lit.Value); err == nil {
-					hooks = append(hooks, s)
+			t := fl.Type
+			if s, ok := t.(*ast.StarExpr); ok {
+				t = s.X
+			}
+			if se, ok := t.(*ast.SelectorExpr); ok && se.Sel.Name == "RWMutex" {
+				if id, ok := se.X.(*ast.Ident); ok && id.Name == "sync" {
+					boxes = append(boxes, name)
 				}
 			}
 		}
 	}
-	g.def("fileHookSites", "List String", strList(hooks),
-		"first arguments of the verifStep(...) calls in fstore.go, then mbox.go, in source order (one per file-system mutation)")
+	if len(boxes) != 1 {
+		return p
+	}
+	p.boxType = boxes[0]
+	st := p.types[p.boxType].Type.(*ast.StructType)
+	slices, bools := []string{}, []string{}
+	for _, fl := range st.Fields.List {
+		for _, n := range fl.Names {
+			if at, ok := fl.Type.(*ast.ArrayType); ok && at.Len == nil {
+				slices = append(slices, n.Name)
+			}
+			if id, ok := fl.Type.(*ast.Ident); ok && id.Name == "bool" {
+				bools = append(bools, n.Name)
+			}
+		}
+	}
+	if len(slices) == 1 {
+		p.sliceField = slices[0]
+	}
+	if len(bools) == 1 {
+		p.boolField = bools[0]
+	}
+	// roles of the path fields, read off every composite literal of the mailbox struct
+	consistent := true
+	for _, cl := range p.boxLiterals() {
+		idxKey, dirKey := "", ""
+		var dirExpr ast.Expr
+		for _, el := range cl.Elts {
+			kv, ok := el.(*ast.KeyValueExpr)
+			if !ok {
+				continue
+			}
+			if ce, ok := p.defOf(kv.Value).(*ast.CallExpr); ok && p.isPkgCall(ce, "filepath", "Join") && len(ce.Args) == 2 {
+				if s, ok := p.strValue(ce.Args[1]); ok && s == "index.gob" {
+					idxKey = src(kv.Key)
+					dirExpr = ce.Args[0]
+				}
+			}
+		}
+		if idxKey == "" {
+			consistent = false
+			continue
+		}
+		for _, el := range cl.Elts {
+			if kv, ok := el.(*ast.KeyValueExpr); ok && src(kv.Key) != idxKey && crSameVar(kv.Value, dirExpr) {
+				dirKey = src(kv.Key)
+			}
+		}
+		if dirKey == "" || (p.fieldRole[idxKey] != "" && p.fieldRole[idxKey] != "dir/index.gob") || (p.fieldRole[dirKey] != "" && p.fieldRole[dirKey] != "dir") {
+			consistent = false
+			continue
+		}
+		p.fieldRole[idxKey] = "dir/index.gob"
+		p.fieldRole[dirKey] = "dir"
+	}
+	if !consistent {
+		p.fieldRole = map[string]string{}
+	}
+	return p
+}
+
+// boxLiterals: every composite literal of the mailbox struct in the package
+func (p *crPkg) boxLiterals() []*ast.CompositeLit {
+	var res []*ast.CompositeLit
+	if p.boxType == "" {
+		return res
+	}
+	for _, f := range p.files {
+		ast.Inspect(f, func(x ast.Node) bool {
+			if cl, ok := x.(*ast.CompositeLit); ok {
+				if id, ok := cl.Type.(*ast.Ident); ok && id.Name == p.boxType {
+					res = append(res, cl)
+				}
+			}
+			return true
+		})
+	}
+	return res
+}
+
+// crSameVar: both expressions are the same variable (same ast.Object) or print alike
+func crSameVar(a, b ast.Expr) bool {
+	a, b = crUnparen(a), crUnparen(b)
+	ia, oka := a.(*ast.Ident)
+	ib, okb := b.(*ast.Ident)
+	if oka && okb {
+		if ia.Obj != nil || ib.Obj != nil {
+			return ia.Obj == ib.Obj
+		}
+		return ia.Name == ib.Name
+	}
+	if oka || okb {
+		return false
+	}
+	return src(a) == src(b)
+}
+
+func (p *crPkg) isPkgCall(ce *ast.CallExpr, pkg, name string) bool {
+	se, ok := crUnparen(ce.Fun).(*ast.SelectorExpr)
+	if !ok || se.Sel.Name != name {
+		return false
+	}
+	id, ok := se.X.(*ast.Ident)
+	return ok && id.Name == pkg && id.Obj == nil && p.imports[pkg]
+}
+
+// defOf: follows an identifier to the expression it was defined from (single-value definitions only)
+func (p *crPkg) defOf(e ast.Expr) ast.Expr {
+	for i := 0; i < 8; i++ {
+		e = crUnparen(e)
+		id, ok := e.(*ast.Ident)
+		if !ok {
+			return e
+		}
+		var next ast.Expr
+		if id.Obj != nil {
+			switch d := id.Obj.Decl.(type) {
+			case *ast.AssignStmt:
+				for k, l := range d.Lhs {
+					if li, ok := l.(*ast.Ident); ok && li.Obj == id.Obj {
+						if len(d.Rhs) == len(d.Lhs) {
+							next = d.Rhs[k]
+						} else if len(d.Rhs) == 1 && k == 0 {
+							next = d.Rhs[0] // v, err := f(..): v "is" the call
+						}
+					}
+				}
+			case *ast.ValueSpec:
+				for k, n := range d.Names {
+					if n.Obj == id.Obj && k < len(d.Values) {
+						next = d.Values[k]
+					}
+				}
+			}
+		} else if v, ok := p.consts[id.Name]; ok {
+			next = v
+		}
+		if next == nil {
+			return e
+		}
+		e = next
+	}
+	return e
+}
+
+func (p *crPkg) strValue(e ast.Expr) (string, bool) {
+	if lit, ok := p.defOf(e).(*ast.BasicLit); ok && lit.Kind == token.STRING {
+		s, err := strconv.Unquote(lit.Value)
+		return s, err == nil
+	}
+	return "", false
+}
+
+// uniqueFunc: the one declaration with this name (method when wantMethod), nil when absent or ambiguous
+func (p *crPkg) uniqueFunc(name string, wantMethod bool) *ast.FuncDecl {
+	var res *ast.FuncDecl
+	for _, fd := range p.funcs[name] {
+		if (fd.Recv != nil) != wantMethod || fd.Body == nil {
+			continue
+		}
+		if res != nil {
+			return nil
+		}
+		res = fd
+	}
+	return res
+}
+
+// method: the method `name` of receiver type `recv`
+func (p *crPkg) method(recv, name string) *ast.FuncDecl {
+	for _, fd := range p.funcs[name] {
+		if fd.Recv == nil || len(fd.Recv.List) != 1 {
+			continue
+		}
+		t := fd.Recv.List[0].Type
+		if s, ok := t.(*ast.StarExpr); ok {
+			t = s.X
+		}
+		if id, ok := t.(*ast.Ident); ok && id.Name == recv {
+			return fd
+		}
+	}
+	return nil
+}
+
+// exportedMethods: the exported methods of receiver type recv, sorted by name
+func (p *crPkg) exportedMethods(recv string) []*ast.FuncDecl {
+	var res []*ast.FuncDecl
+	for name := range p.funcs {
+		if !ast.IsExported(name) {
+			continue
+		}
+		if fd := p.method(recv, name); fd != nil && fd.Body != nil {
+			res = append(res, fd)
+		}
+	}
+	sort.Slice(res, func(i, j int) bool { return res[i].Name.Name < res[j].Name.Name })
+	return res
+}
+
+// ---- programs -----------------------------------------------------------------------------------------------------
+
+type crItem struct {
+	atom string     // kind 0
+	alt  [][]crItem // kind 1
+	loop []crItem   // kind 2
+	kind int
+}
+
+func crAtom(s string) crItem { return crItem{atom: s} }
+
+func crIsTag(it crItem) bool { return it.kind == 0 && strings.HasPrefix(it.atom, "[") }
+
+// crNorm: canonical form (see the head of the file)
+func crNorm(seq []crItem) []crItem {
+	var out []crItem
+	for _, it := range seq {
+		switch it.kind {
+		case 0:
+			out = append(out, it)
+		case 2:
+			b := crNorm(it.loop)
+			if crHasAtom(b) {
+				out = append(out, crItem{kind: 2, loop: b})
+			}
+		case 1:
+			var branches [][]crItem
+			var add func(b []crItem)
+			add = func(b []crItem) {
+				b = crNorm(b)
+				if len(b) == 1 && b[0].kind == 1 {
+					for _, bb := range b[0].alt {
+						add(bb)
+					}
+					return
+				}
+				branches = append(branches, b)
+			}
+			for _, b := range it.alt {
+				add(b)
+			}
+			any := false
+			for _, b := range branches {
+				if crHasAtom(b) {
+					any = true
+				}
+			}
+			if !any {
+				continue
+			}
+			seen := map[string]bool{}
+			var uniq [][]crItem
+			for _, b := range branches {
+				if s := crStr(b); !seen[s] {
+					seen[s] = true
+					uniq = append(uniq, b)
+				}
+			}
+			// ( 0 | { a }* ) is { a }*: a loop may run zero times anyway
+			onlyLoop := false
+			for _, b := range uniq {
+				if len(b) == 1 && b[0].kind == 2 {
+					onlyLoop = true
+				}
+			}
+			if onlyLoop {
+				var keep [][]crItem
+				for _, b := range uniq {
+					if len(b) != 0 {
+						keep = append(keep, b)
+					}
+				}
+				uniq = keep
+			}
+			sort.Slice(uniq, func(i, j int) bool { return crStr(uniq[i]) < crStr(uniq[j]) })
+			if len(uniq) == 1 {
+				out = append(out, uniq[0]...)
+			} else {
+				out = append(out, crItem{kind: 1, alt: uniq})
+			}
+		}
+	}
+	return out
+}
+
+// crHasAtom: does the sequence contain an atom that is not a tag?
+func crHasAtom(seq []crItem) bool {
+	for _, it := range seq {
+		switch it.kind {
+		case 0:
+			if !crIsTag(it) {
+				return true
+			}
+		case 1:
+			for _, b := range it.alt {
+				if crHasAtom(b) {
+					return true
+				}
+			}
+		case 2:
+			if crHasAtom(it.loop) {
+				return true
+			}
+		}
+	}
+	return false
+}
+
+func crStr(seq []crItem) string {
+	if len(seq) == 0 {
+		return "0"
+	}
+	parts := []string{}
+	for _, it := range seq {
+		switch it.kind {
+		case 0:
+			parts = append(parts, it.atom)
+		case 1:
+			bs := []string{}
+			for _, b := range it.alt {
+				bs = append(bs, crStr(b))
+			}
+			parts = append(parts, "( "+strings.Join(bs, " | ")+" )")
+		case 2:
+			parts = append(parts, "{ "+crStr(it.loop)+" }*")
+		}
+	}
+	return strings.Join(parts, " ")
+}
+
+// crFlat: the atoms of a program in print order (tags left out)
+func crFlat(seq []crItem) []string {
+	var res []string
+	for _, it := range seq {
+		switch it.kind {
+		case 0:
+			if !crIsTag(it) {
+				res = append(res, it.atom)
+			}
+		case 1:
+			for _, b := range it.alt {
+				res = append(res, crFlat(b)...)
+			}
+		case 2:
+			res = append(res, crFlat(it.loop)...)
+		}
+	}
+	return res
+}
+
+// ---- the walk -----------------------------------------------------------------------------------------------------
+
+const (
+	crModeFS   = iota // file-system mutations, hooks, lock operations; tags [empty] / [nonempty]
+	crModeLoad        // L = call of the index loader, M = access to the message list; tags [loaded] / [unloaded]
+)
+
+type crWalk struct {
+	p      *crPkg
+	mode   int
+	locks  bool
+	loader *ast.FuncDecl          // crModeLoad: the function that sets the loaded flag (not inlined, atom L)
+	env    map[*ast.Object]string // parameters of inlined helpers -> symbolic path of the argument
+	stack  []*ast.FuncDecl
+}
+
+type crFrame struct{ deferred [][]crItem }
+
+// prog: the normalised program of fd (inlined helpers included)
+func (w *crWalk) prog(fd *ast.FuncDecl) []crItem {
+	if fd == nil || fd.Body == nil {
+		return []crItem{crAtom("?nofunc")}
+	}
+	if w.env == nil {
+		w.env = map[*ast.Object]string{}
+	}
+	return crNorm(w.fn(fd.Body))
+}
+
+func (w *crWalk) fn(body *ast.BlockStmt) []crItem {
+	fr := &crFrame{}
+	items, _ := w.block(body.List, fr)
+	for i := len(fr.deferred) - 1; i >= 0; i-- {
+		items = append(items, fr.deferred[i]...)
+	}
+	return items
+}
+
+func (w *crWalk) block(stmts []ast.Stmt, fr *crFrame) (items []crItem, term bool) {
+	for i, s := range stmts {
+		switch v := s.(type) {
+		case *ast.ReturnStmt:
+			for _, r := range v.Results {
+				items = append(items, w.expr(r)...)
+			}
+			return items, true
+		case *ast.BranchStmt:
+			if v.Tok == token.GOTO || v.Tok == token.FALLTHROUGH {
+				items = append(items, crAtom("?"+v.Tok.String()))
+			}
+			return items, true
+		case *ast.BlockStmt:
+			it, t := w.block(v.List, fr)
+			items = append(items, it...)
+			if t {
+				return items, true
+			}
+		case *ast.LabeledStmt:
+			it, t := w.block([]ast.Stmt{v.Stmt}, fr)
+			items = append(items, it...)
+			if t {
+				return items, true
+			}
+		case *ast.DeferStmt:
+			for _, a := range v.Call.Args {
+				items = append(items, w.expr(a)...)
+			}
+			fr.deferred = append(fr.deferred, w.call(v.Call, true))
+		case *ast.GoStmt:
+			if g := crNorm(w.call(v.Call, true)); len(g) > 0 {
+				items = append(items, crAtom("?go"))
+			}
+		case *ast.IfStmt:
+			it, t, consumedRest := w.ifStmt(v, stmts[i+1:], fr)
+			items = append(items, it...)
+			if t || consumedRest {
+				return items, t
+			}
+		case *ast.SwitchStmt:
+			if v.Init != nil {
+				items = append(items, w.expr(v.Init)...)
+			}
+			chain := crSwitchToIf(v)
+			if chain == nil {
+				if v.Tag != nil {
+					items = append(items, w.expr(v.Tag)...)
+				}
+				continue
+			}
+			it, t := w.block(append([]ast.Stmt{chain}, stmts[i+1:]...), fr)
+			items = append(items, it...)
+			return items, t
+		case *ast.TypeSwitchStmt, *ast.SelectStmt:
+			if g := crNorm(w.expr(s)); len(g) > 0 {
+				items = append(items, crAtom("?switch"))
+			}
+		case *ast.ForStmt:
+			if v.Init != nil {
+				items = append(items, w.expr(v.Init)...)
+			}
+			var body []crItem
+			if v.Cond != nil {
+				body = append(body, w.expr(v.Cond)...)
+			}
+			b, _ := w.block(v.Body.List, fr)
+			body = append(body, b...)
+			if v.Post != nil {
+				body = append(body, w.expr(v.Post)...)
+			}
+			items = append(items, crItem{kind: 2, loop: body})
+		case *ast.RangeStmt:
+			items = append(items, w.expr(v.X)...)
+			b, _ := w.block(v.Body.List, fr)
+			items = append(items, crItem{kind: 2, loop: b})
+		default:
+			items = append(items, w.expr(s)...)
+		}
+	}
+	return items, false
+}
+
+// crSwitchToIf: `switch [tag] { case a, b: A; case c: C; default: D }` as an if / else-if chain (nil for an empty switch)
+func crSwitchToIf(sw *ast.SwitchStmt) ast.Stmt {
+	var clauses []*ast.CaseClause
+	var def *ast.CaseClause
+	for _, s := range sw.Body.List {
+		cc, ok := s.(*ast.CaseClause)
+		if !ok {
+			continue
+		}
+		if cc.List == nil {
+			def = cc
+		} else {
+			clauses = append(clauses, cc)
+		}
+	}
+	var tail ast.Stmt
+	if def != nil {
+		tail = &ast.BlockStmt{List: crCaseBody(def.Body)}
+	}
+	for i := len(clauses) - 1; i >= 0; i-- {
+		cc := clauses[i]
+		var cond ast.Expr
+		for _, e := range cc.List {
+			c := e
+			if sw.Tag != nil {
+				c = &ast.BinaryExpr{X: sw.Tag, Op: token.EQL, Y: e}
+			}
+			if cond == nil {
+				cond = c
+			} else {
+				cond = &ast.BinaryExpr{X: cond, Op: token.LOR, Y: c}
+			}
+		}
+		tail = &ast.IfStmt{Cond: cond, Body: &ast.BlockStmt{List: crCaseBody(cc.Body)}, Else: tail}
+	}
+	return tail
+}
+
+// crCaseBody: a trailing `break` of a case body only ends the case
+func crCaseBody(b []ast.Stmt) []ast.Stmt {
+	if n := len(b); n > 0 {
+		if br, ok := b[n-1].(*ast.BranchStmt); ok && br.Tok == token.BREAK && br.Label == nil {
+			return b[:n-1]
+		}
+	}
+	return b
+}
+
+// crConjuncts: the operands of a && b && c
+func crConjuncts(e ast.Expr) []ast.Expr {
+	e = crUnparen(e)
+	if be, ok := e.(*ast.BinaryExpr); ok && be.Op == token.LAND {
+		return append(crConjuncts(be.X), crConjuncts(be.Y)...)
+	}
+	return []ast.Expr{e}
+}
+
+func crIsNil(e ast.Expr) bool {
+	id, ok := crUnparen(e).(*ast.Ident)
+	return ok && id.Name == "nil" && id.Obj == nil
+}
+
+// crNilTest: cond has the conjunct `v <op> nil` (either side) for an identifier v; returns v's object
+func crNilTest(cond ast.Expr, op token.Token) *ast.Ident {
+	for _, c := range crConjuncts(cond) {
+		be, ok := c.(*ast.BinaryExpr)
+		if !ok || be.Op != op {
+			continue
+		}
+		x, y := crUnparen(be.X), crUnparen(be.Y)
+		if crIsNil(x) {
+			x, y = y, x
+		}
+		if id, ok := x.(*ast.Ident); ok && crIsNil(y) {
+			return id
+		}
+	}
+	return nil
+}
+
+// crMentions: does n mention the variable id (same object; same name when the parser left it unresolved)?
+func crMentions(n ast.Node, id *ast.Ident) bool {
+	found := false
+	ast.Inspect(n, func(x ast.Node) bool {
+		if y, ok := x.(*ast.Ident); ok && y.Name == id.Name && y.Obj == id.Obj {
+			found = true
+		}
+		return true
+	})
+	return found
+}
+
+// crFailureBranch: the block ends in a `return` that passes the tested error value on (explicitly, or as a named result)
+func crFailureBranch(b *ast.BlockStmt, errVar *ast.Ident) bool {
+	if b == nil || errVar == nil || len(b.List) == 0 {
+		return false
+	}
+	ret, ok := b.List[len(b.List)-1].(*ast.ReturnStmt)
+	if !ok {
+		return false
+	}
+	for _, r := range ret.Results {
+		if crMentions(r, errVar) {
+			return true
+		}
+	}
+	// a bare return hands a NAMED result back: `if err != nil { …; return }`
+	if len(ret.Results) == 0 && errVar.Obj != nil {
+		if _, named := errVar.Obj.Decl.(*ast.Field); named {
+			return true
+		}
+	}
+	return false
+}
+
+// ifStmt: returns the items, whether every path through them terminates, and whether the rest of the enclosing block
+// has been consumed (it was appended to the branch that falls through)
+func (w *crWalk) ifStmt(v *ast.IfStmt, rest []ast.Stmt, fr *crFrame) (items []crItem, term bool, consumed bool) {
+	if v.Init != nil {
+		items = append(items, w.expr(v.Init)...)
+	}
+	items = append(items, w.expr(v.Cond)...)
+	elseStmts := func() []ast.Stmt {
+		if v.Else == nil {
+			return nil
+		}
+		return []ast.Stmt{v.Else}
+	}
+	// failure handlers are not part of the success path
+	if crFailureBranch(v.Body, crNilTest(v.Cond, token.NEQ)) {
+		it, t := w.block(elseStmts(), fr)
+		return append(items, it...), t, false
+	}
+	if eb, ok := v.Else.(*ast.BlockStmt); ok && crFailureBranch(eb, crNilTest(v.Cond, token.EQL)) {
+		it, t := w.block(v.Body.List, fr)
+		return append(items, it...), t, false
+	}
+	thenTag, elseTag := w.tags(v.Cond)
+	thenB, thenT := w.block(v.Body.List, fr)
+	elseB, elseT := w.block(elseStmts(), fr)
+	if thenTag != "" {
+		thenB = append([]crItem{crAtom(thenTag)}, thenB...)
+		elseB = append([]crItem{crAtom(elseTag)}, elseB...)
+	}
+	if thenT != elseT {
+		// exactly one branch leaves: the statements after the if belong to the other one
+		r, rt := w.block(rest, fr)
+		if thenT {
+			elseB = append(elseB, r...)
+		} else {
+			thenB = append(thenB, r...)
+		}
+		return append(items, crItem{kind: 1, alt: [][]crItem{thenB, elseB}}), rt, true
+	}
+	return append(items, crItem{kind: 1, alt: [][]crItem{thenB, elseB}}), thenT && elseT, false
+}
+
+// tags: the labels of the two sides of a recognised test
+func (w *crWalk) tags(cond ast.Expr) (string, string) {
+	cond = crUnparen(cond)
+	switch w.mode {
+	case crModeFS:
+		if be, ok := cond.(*ast.BinaryExpr); ok {
+			x, y, op := crUnparen(be.X), crUnparen(be.Y), be.Op
+			if _, isLit := x.(*ast.BasicLit); isLit { // 0 < len(..)  ->  len(..) > 0
+				x, y = y, x
+				switch op {
+				case token.LSS:
+					op = token.GTR
+				case token.GTR:
+					op = token.LSS
+				case token.LEQ:
+					op = token.GEQ
+				case token.GEQ:
+					op = token.LEQ
+				}
+			}
+			lit, isLit := y.(*ast.BasicLit)
+			if ce, ok := x.(*ast.CallExpr); ok && isLit && lit.Kind == token.INT && len(ce.Args) == 1 && src(ce.Fun) == "len" && w.isBoxField(ce.Args[0], w.p.sliceField) {
+				switch op.String() + lit.Value {
+				case ">0", "!=0", ">=1":
+					return "[nonempty]", "[empty]"
+				case "==0", "<1", "<=0":
+					return "[empty]", "[nonempty]"
+				}
+			}
+		}
+	case crModeLoad:
+		if u, ok := cond.(*ast.UnaryExpr); ok && u.Op == token.NOT && w.isBoxField(u.X, w.p.boolField) {
+			return "[unloaded]", "[loaded]"
+		}
+		if w.isBoxField(cond, w.p.boolField) {
+			return "[loaded]", "[unloaded]"
+		}
+	}
+	return "", ""
+}
+
+// isBoxField: e is `<something>.<field>` for the given (non-empty) field name
+func (w *crWalk) isBoxField(e ast.Expr, field string) bool {
+	se, ok := crUnparen(e).(*ast.SelectorExpr)
+	return ok && field != "" && se.Sel.Name == field
+}
+
+// expr: the items of the calls inside n, arguments before the call (evaluation order), closures not entered
+func (w *crWalk) expr(n ast.Node) []crItem {
+	var items []crItem
+	if n == nil {
+		return items
+	}
+	ast.Inspect(n, func(x ast.Node) bool {
+		switch v := x.(type) {
+		case *ast.FuncLit:
+			return false
+		case *ast.CallExpr:
+			if fl, ok := crUnparen(v.Fun).(*ast.FuncLit); ok { // func(){…}()
+				for _, a := range v.Args {
+					items = append(items, w.expr(a)...)
+				}
+				items = append(items, w.fn(fl.Body)...)
+				return false
+			}
+			items = append(items, w.expr(v.Fun)...)
+			for _, a := range v.Args {
+				items = append(items, w.expr(a)...)
+			}
+			items = append(items, w.call(v, false)...)
+			return false
+		case *ast.SelectorExpr:
+			if w.mode == crModeLoad && w.isBoxField(v, w.p.sliceField) {
+				items = append(items, crAtom("M"))
+			}
+		}
+		return true
+	})
+	return items
+}
+
+var crOsReadOnly = map[string]bool{"Stat": true, "Lstat": true, "Open": true, "IsNotExist": true, "IsExist": true, "IsPermission": true,
+	"ReadDir": true, "ReadFile": true, "Getenv": true, "Getpid": true, "Getwd": true, "Hostname": true, "LookupEnv": true, "TempDir": true}
+
+// call: the items of the call itself (its arguments are handled by expr); deferred = the call is the operand of defer / go
+func (w *crWalk) call(ce *ast.CallExpr, deferred bool) []crItem {
+	fun := crUnparen(ce.Fun)
+	if fl, ok := fun.(*ast.FuncLit); ok {
+		return w.fn(fl.Body)
+	}
+	arg := func(i int) string {
+		if i < len(ce.Args) {
+			return w.path(ce.Args[i])
+		}
+		return "?"
+	}
+	switch f := fun.(type) {
+	case *ast.SelectorExpr:
+		name := f.Sel.Name
+		if id, ok := f.X.(*ast.Ident); ok && id.Obj == nil && w.p.imports[id.Name] {
+			if w.mode != crModeFS {
+				return nil
+			}
+			switch id.Name + "." + name {
+			case "os.Create":
+				return []crItem{crAtom("create(" + arg(0) + ")")}
+			case "os.OpenFile":
+				return []crItem{crAtom(w.openFile(ce))}
+			case "os.Rename":
+				return []crItem{crAtom("rename(" + arg(0) + "," + arg(1) + ")")}
+			case "os.Remove":
+				return []crItem{crAtom("unlink(" + arg(0) + ")")}
+			case "os.RemoveAll":
+				return []crItem{crAtom("removeall(" + arg(0) + ")")}
+			case "os.MkdirAll", "os.Mkdir":
+				return []crItem{crAtom("mkdirall(" + arg(0) + ")")}
+			case "os.WriteFile", "ioutil.WriteFile":
+				return []crItem{crAtom("writefile(" + arg(0) + ")")}
+			case "io.Copy", "io.CopyBuffer", "io.CopyN":
+				if len(ce.Args) > 0 {
+					if k, p := w.handle(ce.Args[0]); k == "w" {
+						return []crItem{crAtom("copy(" + p + ")")}
+					}
+				}
+				return []crItem{crAtom("copy(?)")}
+			}
+			if id.Name == "os" && !crOsReadOnly[name] {
+				return []crItem{crAtom("os." + name)}
+			}
+			return nil
+		}
+		// a method
+		switch name {
+		case "Lock", "RLock", "Unlock", "RUnlock":
+			if w.mode == crModeFS && w.locks && len(ce.Args) == 0 {
+				return []crItem{crAtom(strings.ToLower(name))}
+			}
+			return nil
+		case "Flush", "Close", "Sync", "Write", "WriteString", "Truncate":
+			if len(w.p.funcs[name]) == 0 { // not a method of the package: a writer / file handle, or something foreign
+				if k, p := w.handle(f.X); k == "w" && w.mode == crModeFS {
+					return []crItem{crAtom(strings.ToLower(name) + "(" + p + ")")}
+				}
+				return nil
+			}
+		}
+		if fd := w.p.uniqueFunc(name, true); fd != nil {
+			return w.inline(fd, ce)
+		}
+		return nil
+	case *ast.Ident:
+		if f.Name == "verifStep" && f.Obj == nil {
+			if w.mode != crModeFS {
+				return nil
+			}
+			if len(ce.Args) >= 1 {
+				if lit, ok := ce.Args[0].(*ast.BasicLit); ok && lit.Kind == token.STRING {
+					if s, err := strconv.Unquote(lit.Value); err == nil {
+						return []crItem{crAtom("@" + s)}
+					}
+				}
+			}
+			return []crItem{crAtom("?hook")}
+		}
+		if f.Obj != nil && f.Obj.Kind != ast.Fun {
+			return nil // a local function value, a conversion to a local type, …
+		}
+		if fd := w.p.uniqueFunc(f.Name, false); fd != nil {
+			return w.inline(fd, ce)
+		}
+	}
+	return nil
+}
+
+// openFile: os.OpenFile with O_CREATE|O_TRUNC and a write mode is a create; anything else keeps its flags
+func (w *crWalk) openFile(ce *ast.CallExpr) string {
+	if len(ce.Args) != 3 {
+		return "?openfile"
+	}
+	flags := map[string]bool{}
+	ok := true
+	var collect func(e ast.Expr)
+	collect = func(e ast.Expr) {
+		e = crUnparen(e)
+		if be, isBin := e.(*ast.BinaryExpr); isBin && be.Op == token.OR {
+			collect(be.X)
+			collect(be.Y)
+			return
+		}
+		if se, isSel := e.(*ast.SelectorExpr); isSel {
+			if id, isId := se.X.(*ast.Ident); isId && id.Name == "os" && id.Obj == nil {
+				flags[se.Sel.Name] = true
+				return
+			}
+		}
+		ok = false
+	}
+	collect(ce.Args[1])
+	p := w.path(ce.Args[0])
+	if ok && flags["O_CREATE"] && flags["O_TRUNC"] && (flags["O_WRONLY"] || flags["O_RDWR"]) && !flags["O_APPEND"] && !flags["O_EXCL"] {
+		return "create(" + p + ")"
+	}
+	names := []string{}
+	for n := range flags {
+		names = append(names, n)
+	}
+	sort.Strings(names)
+	if !ok {
+		names = append(names, "?")
+	}
+	return "openfile[" + strings.Join(names, "|") + "](" + p + ")"
+}
+
+func (w *crWalk) inline(fd *ast.FuncDecl, ce *ast.CallExpr) []crItem {
+	if w.mode == crModeLoad && fd == w.loader {
+		return []crItem{crAtom("L")}
+	}
+	if len(w.stack) > 10 {
+		return []crItem{crAtom("?depth")}
+	}
+	for _, s := range w.stack {
+		if s == fd {
+			return []crItem{crAtom("?recursion")}
+		}
+	}
+	// bind the parameters to the symbolic paths of the arguments
+	saved := map[*ast.Object]string{}
+	var bound []*ast.Object
+	if fd.Type.Params != nil {
+		k := 0
+		for _, fl := range fd.Type.Params.List {
+			for _, n := range fl.Names {
+				if k < len(ce.Args) && n.Obj != nil {
+					if _, variadic := fl.Type.(*ast.Ellipsis); !variadic {
+						v := w.path(ce.Args[k])
+						if old, ok := w.env[n.Obj]; ok {
+							saved[n.Obj] = old
+						}
+						bound = append(bound, n.Obj)
+						w.env[n.Obj] = v
+					}
+				}
+				k++
+			}
+		}
+	}
+	w.stack = append(w.stack, fd)
+	items := w.fn(fd.Body)
+	w.stack = w.stack[:len(w.stack)-1]
+	for _, o := range bound {
+		if old, ok := saved[o]; ok {
+			w.env[o] = old
+		} else {
+			delete(w.env, o)
+		}
+	}
+	return items
+}
+
+// path: the symbolic value of a path expression ("?" parts where it cannot be told)
+func (w *crWalk) path(e ast.Expr) string { return w.pathN(e, 0) }
+
+func (w *crWalk) pathN(e ast.Expr, depth int) string {
+	if depth > 12 {
+		return "?"
+	}
+	e = crUnparen(e)
+	switch v := e.(type) {
+	case *ast.BasicLit:
+		if v.Kind == token.STRING {
+			if s, err := strconv.Unquote(v.Value); err == nil {
+				return s
+			}
+		}
+	case *ast.Ident:
+		if v.Obj != nil {
+			if s, ok := w.env[v.Obj]; ok {
+				return s
+			}
+		}
+		if d := w.p.defOf(v); d != ast.Expr(v) {
+			if _, stillIdent := d.(*ast.Ident); !stillIdent {
+				return w.pathN(d, depth+1)
+			}
+		}
+	case *ast.BinaryExpr:
+		if v.Op == token.ADD {
+			return w.pathN(v.X, depth+1) + w.pathN(v.Y, depth+1)
+		}
+	case *ast.SelectorExpr:
+		if r, ok := w.p.fieldRole[v.Sel.Name]; ok {
+			return r
+		}
+		if ast.IsExported(v.Sel.Name) {
+			return "<" + v.Sel.Name + ">"
+		}
+	case *ast.CallExpr:
+		if w.p.isPkgCall(v, "filepath", "Join") || w.p.isPkgCall(v, "path", "Join") {
+			parts := []string{}
+			for _, a := range v.Args {
+				parts = append(parts, w.pathN(a, depth+1))
+			}
+			return strings.Join(parts, "/")
+		}
+		if (w.p.isPkgCall(v, "filepath", "Dir") || w.p.isPkgCall(v, "path", "Dir")) && len(v.Args) == 1 {
+			return "parent(" + w.pathN(v.Args[0], depth+1) + ")"
+		}
+		// a one-line helper of the package: `return <expr>`
+		var fd *ast.FuncDecl
+		switch f := crUnparen(v.Fun).(type) {
+		case *ast.SelectorExpr:
+			fd = w.p.uniqueFunc(f.Sel.Name, true)
+		case *ast.Ident:
+			fd = w.p.uniqueFunc(f.Name, false)
+		}
+		if fd != nil && len(fd.Body.List) == 1 {
+			if ret, ok := fd.Body.List[0].(*ast.ReturnStmt); ok && len(ret.Results) == 1 {
+				return w.pathN(ret.Results[0], depth+1)
+			}
+		}
+	}
+	return "?"
+}
+
+// handle: what an expression used as a writer / file is: ("w", path) for os.Create / os.OpenFile (also through
+// bufio.NewWriter and friends), ("r", path) for os.Open, ("", "?") otherwise
+func (w *crWalk) handle(e ast.Expr) (string, string) {
+	for i := 0; i < 6; i++ {
+		ce, ok := w.p.defOf(e).(*ast.CallExpr)
+		if !ok {
+			return "", "?"
+		}
+		switch {
+		case w.p.isPkgCall(ce, "os", "Create") && len(ce.Args) == 1, w.p.isPkgCall(ce, "os", "OpenFile") && len(ce.Args) == 3:
+			return "w", w.path(ce.Args[0])
+		case w.p.isPkgCall(ce, "os", "Open") && len(ce.Args) == 1:
+			return "r", w.path(ce.Args[0])
+		case (w.p.isPkgCall(ce, "bufio", "NewWriter") || w.p.isPkgCall(ce, "bufio", "NewWriterSize")) && len(ce.Args) >= 1:
+			e = ce.Args[0]
+		default:
+			return "", "?"
+		}
+	}
+	return "", "?"
+}
+
+// ---- derived facts ------------------------------------------------------------------------------------------------
+
+// crDirectly: the functions of the package whose own body (closures included, helpers not followed) calls <pkg>.<name>
+func (p *crPkg) crDirectly(pkg, name string) []*ast.FuncDecl {
+	var res []*ast.FuncDecl
+	for _, f := range p.files {
+		for _, d := range f.Decls {
+			fd, ok := d.(*ast.FuncDecl)
+			if !ok || fd.Body == nil {
+				continue
+			}
+			for _, ce := range callsIn(fd.Body) {
+				if p.isPkgCall(ce, pkg, name) {
+					res = append(res, fd)
+					break
+				}
+			}
+		}
+	}
+	return res
+}
+
+func crIndexOf(l []string, s string) int {
+	for i, x := range l {
+		if x == s {
+			return i
+		}
+	}
+	return -1
+}
+
+// crIndexWriteKind: how the program of the index writer replaces dir/index.gob
+//
+//	"tmpRename": the only file it creates is dir/index.gob<suffix> (suffix not empty) and a later rename moves exactly
+//	             that file onto dir/index.gob, with nothing but flush / close of that file and hooks in between
+//	"inPlace":   it creates dir/index.gob itself and renames nothing
+func crIndexWriteKind(prog []crItem) string {
+	flat := crFlat(prog)
+	var creates, renames []int
+	for i, a := range flat {
+		if strings.HasPrefix(a, "create(") || strings.HasPrefix(a, "openfile") || strings.HasPrefix(a, "writefile(") {
+			creates = append(creates, i)
+		}
+		if strings.HasPrefix(a, "rename(") {
+			renames = append(renames, i)
+		}
+	}
+	if len(creates) != 1 {
+		return "unknown"
+	}
+	c := flat[creates[0]]
+	const idx = "dir/index.gob"
+	switch {
+	case c == "create("+idx+")" && len(renames) == 0:
+		return "inPlace"
+	case strings.HasPrefix(c, "create("+idx) && c != "create("+idx+")" && !strings.Contains(c, "?") && len(renames) == 1 && renames[0] > creates[0]:
+		tmp := strings.TrimSuffix(strings.TrimPrefix(c, "create("), ")")
+		if flat[renames[0]] != "rename("+tmp+","+idx+")" {
+			return "unknown"
+		}
+		for _, a := range flat[creates[0]+1 : renames[0]] {
+			if !strings.HasPrefix(a, "@") && a != "flush("+tmp+")" && a != "close("+tmp+")" && a != "write("+tmp+")" && a != "sync("+tmp+")" {
+				return "unknown"
+			}
+		}
+		return "tmpRename"
+	}
+	return "unknown"
+}
+
+// crRemoveDirKind: "indexFirst" = unlink(dir/index.gob) precedes the only removeall(dir); "removeAllFirst" = no unlink of
+// the index before it
+func crRemoveDirKind(prog []crItem) string {
+	flat := crFlat(prog)
+	n, first := 0, -1
+	for i, a := range flat {
+		if strings.HasPrefix(a, "removeall(") {
+			n++
+			if first < 0 {
+				first = i
+			}
+		}
+	}
+	if n != 1 || flat[first] != "removeall(dir)" {
+		return "unknown"
+	}
+	if i := crIndexOf(flat, "unlink(dir/index.gob)"); i >= 0 && i < first {
+		return "indexFirst"
+	}
+	return "removeAllFirst"
+}
+
+// crHookPairs: every mutation atom of the program with the hook atom that stands immediately before it ("" when there
+// is none), and every hook that is not followed by a mutation paired with ""
+func crHookPairs(seq []crItem, acc map[[2]string]bool) {
+	isOp := func(it crItem) bool {
+		return it.kind == 0 && !crIsTag(it) && !strings.HasPrefix(it.atom, "@") &&
+			it.atom != "lock" && it.atom != "rlock" && it.atom != "unlock" && it.atom != "runlock"
+	}
+	isHook := func(it crItem) bool { return it.kind == 0 && strings.HasPrefix(it.atom, "@") }
+	for i, it := range seq {
+		switch it.kind {
+		case 0:
+			if isOp(it) {
+				h := ""
+				if i > 0 && isHook(seq[i-1]) {
+					h = seq[i-1].atom[1:]
+				}
+				acc[[2]string{h, it.atom}] = true
+			}
+			if isHook(it) && !(i+1 < len(seq) && isOp(seq[i+1])) {
+				acc[[2]string{it.atom[1:], ""}] = true
+			}
+		case 1:
+			for _, b := range it.alt {
+				crHookPairs(b, acc)
+			}
+		case 2:
+			crHookPairs(it.loop, acc)
+		}
+	}
+}
+
+// crFilePkg: the three files of the file store
+func crFilePkg() *crPkg {
+	return crLoadPkg(parse("pkg/storage/file/fstore.go"), parse("pkg/storage/file/mbox.go"), parse("pkg/storage/file/fmessage.go"))
+}
+
+// crOne: the program of the only function that directly calls <pkg>.<name> ("?" program when there is not exactly one)
+func crOne(p *crPkg, pkg, name string) []crItem {
+	fds := p.crDirectly(pkg, name)
+	if len(fds) != 1 {
+		return []crItem{crAtom("?" + pkg + "." + name)}
+	}
+	return (&crWalk{p: p, mode: crModeFS}).prog(fds[0])
+}
+
+// crIndexWriter: the function that writes the index: the only one that calls os.Rename, or — when nothing in the package
+// renames — the only one whose own body creates dir/index.gob
+func crIndexWriter(p *crPkg) *ast.FuncDecl {
+	rn := p.crDirectly("os", "Rename")
+	if len(rn) == 1 {
+		return rn[0]
+	}
+	if len(rn) > 1 {
+		return nil
+	}
+	var res *ast.FuncDecl
+	for _, name := range []string{"Create", "OpenFile", "WriteFile"} {
+		for _, fd := range p.crDirectly("os", name) {
+			w := &crWalk{p: p, mode: crModeFS, env: map[*ast.Object]string{}}
+			for _, ce := range callsIn(fd.Body) {
+				if p.isPkgCall(ce, "os", name) && len(ce.Args) > 0 && w.path(ce.Args[0]) == "dir/index.gob" {
+					if res != nil && res != fd {
+						return nil
+					}
+					res = fd
+				}
+			}
+		}
+	}
+	return res
+}
+
+// crProgTokens: the program as a list of tokens (Lean compares lists of short literals, it cannot compute with long strings)
+func crProgTokens(prog []crItem) string { return strList(strings.Fields(crStr(prog))) }
+
+func extractCrash() {
+	g := gen("Crash")
+	p := crFilePkg()
+
+	// ---- how the index is replaced
+	indexWrite := "unknown"
+	if wi := crIndexWriter(p); wi != nil {
+		indexWrite = crIndexWriteKind((&crWalk{p: p, mode: crModeFS}).prog(wi))
+	}
+	g.def("fileIndexWrite", "String", leanStr(indexWrite),
+		"the function that writes the index (the one calling os.Rename, else the one creating dir/index.gob), helpers inlined: \"tmpRename\" = the only file it creates is dir/index.gob<suffix> (os.Create, or os.OpenFile with O_CREATE|O_TRUNC and a write mode) and os.Rename(<that file>, dir/index.gob) follows with only flush / close of that file in between; \"inPlace\" = it creates dir/index.gob itself and renames nothing")
+
+	// ---- how a mailbox directory is removed: the program of the function that calls os.RemoveAll
+	g.def("fileRemoveDir", "String", leanStr(crRemoveDirKind(crOne(p, "os", "RemoveAll"))),
+		"the function that calls os.RemoveAll, helpers inlined: \"indexFirst\" = os.Remove(dir/index.gob) precedes the only os.RemoveAll(dir); \"removeAllFirst\" = no unlink of the index before it")
+
+	// ---- the success-path programs of the mutating operations (exported methods of Store, everything inlined)
+	progOf := func(name string) []crItem {
+		return (&crWalk{p: p, mode: crModeFS, locks: true}).prog(p.method("Store", name))
+	}
+	note := " — success-path program, as tokens, with every package-local call inlined: atoms are file-system mutations op(path) (paths evaluated symbolically: dir, dir/index.gob, dir/<Fid>.raw, parent(dir) …), verif hooks @label and lock / unlock (a deferred call counts at the end of its function); ( a | b ) = alternatives of an if / switch, sorted, 0 = nothing; { a }* = loop; [empty] / [nonempty] = the side of a test of len(<message list>) against 0; failure handlers (`if e != nil { …; return …e… }`) are left out; ?… = not understood"
+	g.def("fileAddProg", "List String", crProgTokens(progOf("AddMessage")), "(*Store).AddMessage"+note)
+	g.def("fileRemoveMsgProg", "List String", crProgTokens(progOf("RemoveMessage")), "(*Store).RemoveMessage"+note)
+	g.def("fileMarkSeenProg", "List String", crProgTokens(progOf("MarkSeen")), "(*Store).MarkSeen"+note)
+	g.def("filePurgeProg", "List String", crProgTokens(progOf("PurgeMessages")), "(*Store).PurgeMessages"+note)
+
+	// ---- hook sites: which hook announces which mutation
+	acc := map[[2]string]bool{}
+	for _, fd := range p.exportedMethods("Store") {
+		crHookPairs((&crWalk{p: p, mode: crModeFS}).prog(fd), acc)
+	}
+	pairs := [][2]string{}
+	for k := range acc {
+		pairs = append(pairs, k)
+	}
+	sort.Slice(pairs, func(i, j int) bool {
+		if pairs[i][0] != pairs[j][0] {
+			return pairs[i][0] < pairs[j][0]
+		}
+		return pairs[i][1] < pairs[j][1]
+	})
+	ps := []string{}
+	for _, k := range pairs {
+		ps = append(ps, "("+leanStr(k[0])+", "+leanStr(k[1])+")")
+	}
+	g.def("fileHookSites", "List (String × String)", "["+strings.Join(ps, ", ")+"]",
+		"over the programs of all exported Store methods: (hook label, mutation) for every mutation atom and the verifStep hook immediately before it (\"\" = no hook there; a hook not followed by a mutation is paired with \"\"), sorted, duplicates removed")
 }
